@@ -14,7 +14,7 @@ import lane_conv as L
 from common import Verdict, parse_coq_value, run_cases_file
 from lane_conv import CFGS, NODEFAULT, Tables, Unencodable, World
 
-HEADER = "From V.Model Require Import Base Templates Conv ConvLane.\nLocal Open Scope N_scope.\n"
+HEADER = "From V.Model Require Import Base Templates Conv ConvErr ConvLane.\nLocal Open Scope N_scope.\n"
 
 # profiles: which features a session generates
 P_ALL = {"max_classes": 4, "max_fields": 4, "depth": 3, "init_false": 0.12, "kw_only": 0.2, "any_structured": True, "any_tuples": True}
@@ -339,7 +339,8 @@ class Session:
                 src = HEADER + txt
                 m = re.search(r"Definition cs_%d : list bool := \[\n(.*)\n\]\.\n" % i, txt, flags=re.S)
                 case = m.group(1).split(";\n  ")[idx - base]
-                case = re.sub(r"^ccase_ok true (env_\d+) ", r"ccase_model \1 ", case.strip())
+                fn = "cerr_model" if " (CE " in case else "ccase_model"
+                case = re.sub(r"^ccase_ok true (env_\d+) ", fn + r" \1 ", case.strip())
                 src += f"Eval vm_compute in ({case}).\n"
                 rc, out = run_cases_file(f"{self.name}_explain", src, timeout=300)
                 vals = parse_coq_value(out)
